@@ -8,9 +8,17 @@ structure EInv (s : ESpace) : Prop where
   len : s.n = s.active.length
   cap : s.n ≤ s.cap
   idx : ∀ a i, s.a2i a = some i ↔ s.active[i]? = some a
+  gone : ∀ a, s.gone a = true → s.a2i a = none
 
 theorem einv_init (c : ECfg) (cap : Nat) : EInv (einit c cap) :=
-  ⟨rfl, Nat.zero_le _, by simp [einit]⟩
+  ⟨rfl, Nat.zero_le _, by simp [einit], by simp [einit]⟩
+
+/-- an agent that has a row has not been removed -/
+theorem EInv.not_gone {s : ESpace} (h : EInv s) {a : Aid} {i : Nat} (hi : s.a2i a = some i) :
+    s.gone a = false := by
+  cases hg : s.gone a with
+  | false => rfl
+  | true => rw [h.gone a hg] at hi; cases hi
 
 theorem EInv.view {s : ESpace} (h : EInv s) : s.view = s.n := by
   unfold ESpace.view; have := h.cap; omega
@@ -51,8 +59,15 @@ theorem getPos_of_not_mem {s : ESpace} (h : EInv s) {a : Aid} (ha : a ∉ s.acti
 
 /-! ### `_add_agent` (growth) -/
 
-theorem einv_add {s : ESpace} (h : EInv s) {a : Aid} (hf : s.a2i a = none) : EInv (addAgent s a) := by
-  refine ⟨by simp [addAgent, h.len], ?_, ?_⟩
+theorem einv_add {s : ESpace} (h : EInv s) {a : Aid} (hf : s.a2i a = none) (hg : s.gone a = false) :
+    EInv (addAgent s a) := by
+  refine ⟨by simp [addAgent, h.len], ?_, ?_, ?_⟩
+  rotate_left 2
+  · intro b hb
+    simp only [addAgent] at hb ⊢
+    by_cases hba : b = a
+    · subst hba; rw [hg] at hb; cases hb
+    · simp only [upd, hba, if_false]; exact h.gone b hb
   · have := h.cap; have := growBy_pos (s.n + 1)
     simp only [addAgent]; split <;> omega
   · intro b i
@@ -87,12 +102,12 @@ theorem einv_add {s : ESpace} (h : EInv s) {a : Aid} (hf : s.a2i a = none) : EIn
           have := List.mem_of_getElem? e
           simp at this; exact absurd this hba
 
-theorem getPos_add {s : ESpace} (h : EInv s) {a b : Aid} (hf : s.a2i a = none) (hb : b ∈ s.active) :
-    getPos (addAgent s a) b = getPos s b := by
+theorem getPos_add {s : ESpace} (h : EInv s) {a b : Aid} (hf : s.a2i a = none) (hg : s.gone a = false)
+    (hb : b ∈ s.active) : getPos (addAgent s a) b = getPos s b := by
   obtain ⟨i, hi⟩ := (h.mem_iff b).mp hb
   have hba : b ≠ a := by rintro rfl; rw [hf] at hi; cases hi
   have hi' : (addAgent s a).a2i b = some i := by simp [addAgent, upd, hba, hi]
-  rw [getPos_of_idx (einv_add h hf) hi', getPos_of_idx h hi]; rfl
+  rw [getPos_of_idx (einv_add h hf hg) hi', getPos_of_idx h hi]; rfl
 
 /-! ### the position setter -/
 
@@ -124,7 +139,7 @@ theorem setPos_spec {s : ESpace} (h : EInv s) (a : Aid) (p : Pos) :
     all_goals split <;> simp
 
 theorem einv_set {s : ESpace} (h : EInv s) (i : Nat) (p : Pos) : EInv { s with buf := upd s.buf i p } :=
-  ⟨h.len, h.cap, h.idx⟩
+  ⟨h.len, h.cap, h.idx, h.gone⟩
 
 theorem getPos_set {s : ESpace} (h : EInv s) {a : Aid} {i : Nat} (hi : s.a2i a = some i) (p : Pos) (b : Aid) :
     getPos { s with buf := upd s.buf i p } b = if b = a then .ok p else getPos s b := by
@@ -183,7 +198,7 @@ theorem removeAgent_spec {s : ESpace} (h : EInv s) {a : Aid} {index : Nat} (ha :
       (∀ b, s'.a2i b = if b = a then none else
         match s.a2i b with
         | none => none
-        | some i => if index < i then some (i - 1) else some i) := by
+        | some i => if index < i then some (i - 1) else some i) ∧ s'.gone = s.gone := by
   have hlt : index < s.active.length := by rw [← h.len]; exact h.lt ha
   have hnd : ((s.active.eraseIdx index).drop index).Nodup :=
     (h.nodup.sublist (List.eraseIdx_sublist _ _)).sublist (List.drop_sublist _ _)
@@ -195,7 +210,7 @@ theorem removeAgent_spec {s : ESpace} (h : EInv s) {a : Aid} {index : Nat} (ha :
   obtain ⟨m', r', h1, h2⟩ := reindex_spec _ (upd s.a2i a none) (upd s.i2a index none) hnd hs
   refine ⟨{ s with active := s.active.eraseIdx index, a2i := m', i2a := r', n := s.n - 1,
                    buf := fun i => if index ≤ i ∧ i + 1 < s.n then s.buf (i + 1) else s.buf i },
-    by simp [removeAgent, ha, Nat.not_le.mpr hlt, h1], rfl, rfl, rfl, rfl, rfl, ?_⟩
+    by simp [removeAgent, ha, Nat.not_le.mpr hlt, h1], rfl, rfl, rfl, rfl, rfl, ?_, rfl⟩
   intro b
   show m' b = _
   rw [h2 b]
@@ -223,9 +238,18 @@ theorem einv_remove {s s' : ESpace} (h : EInv s) {a : Aid} {index : Nat} (ha : s
     (hm : ∀ b, s'.a2i b = if b = a then none else
         match s.a2i b with
         | none => none
-        | some i => if index < i then some (i - 1) else some i) : EInv s' := by
+        | some i => if index < i then some (i - 1) else some i)
+    (hg : ∀ b, s'.gone b = true → s.gone b = true ∨ b = a) : EInv s' := by
   have hlt : index < s.active.length := by rw [← h.len]; exact h.lt ha
-  refine ⟨?_, ?_, ?_⟩
+  refine ⟨?_, ?_, ?_, ?_⟩
+  rotate_left 3
+  · intro b hb
+    rw [hm b]
+    rcases hg b hb with h1 | h1
+    · by_cases hba : b = a
+      · simp [hba]
+      · simp [hba, h.gone b h1]
+    · simp [h1]
   · rw [hn, hact, List.length_eraseIdx, h.len]; simp [hlt]
   · rw [hn, hc]; have := h.cap; omega
   · intro b i
@@ -324,106 +348,253 @@ theorem nodup_eraseIdx_eq_filter (l : List Aid) (i : Nat) (a : Aid) (hn : l.Nodu
       have hxa : x ≠ a := by rintro rfl; exact hx (List.mem_of_getElem? hi')
       simp [hxa, ih i hxs hi']
 
-/-- The property's description of one call of the experimental API: who is in the space (in order of
-    creation) and the position last assigned to each agent (`none` until the first assignment). -/
-def especStep (c : ECfg) (st : List Aid × (Aid → Option Pos)) : EOp → List Aid × (Aid → Option Pos)
-  | .new a => if a ∈ st.1 then st else (st.1 ++ [a], upd st.2 a none)
+/-! the agent-level wrappers on a coherent state -/
+
+theorem agentRemove_spec {s : ESpace} (h : EInv s) {a : Aid} {index : Nat} (ha : s.a2i a = some index) :
+    ∃ s', agentRemove s a = .ok s' ∧ EInv s' ∧ s'.cfg = s.cfg ∧ s'.cap = s.cap ∧ s'.n = s.n - 1 ∧
+      s'.active = s.active.eraseIdx index ∧ s'.gone = upd s.gone a true ∧ s'.a2i a = none ∧
+      ∀ b, b ≠ a → getPos s' b = getPos s b := by
+  obtain ⟨s0, h1, h2, h3, h4, h5, h6, h7, h8⟩ := removeAgent_spec h ha
+  have hi' : EInv { s0 with gone := upd s0.gone a true } :=
+    einv_remove (s' := { s0 with gone := upd s0.gone a true }) h ha h4 h3 h5 h7 (by
+      intro b hb
+      by_cases hba : b = a
+      · exact Or.inr hba
+      · left; simpa [upd, hba, h8] using hb)
+  refine ⟨{ s0 with gone := upd s0.gone a true }, by simp [agentRemove, h.not_gone ha, h1], hi', h2, h3, h4, h5,
+    by simp [h8], by simp [h7 a], ?_⟩
+  intro b hba
+  exact getPos_remove (s' := { s0 with gone := upd s0.gone a true }) h hi' ha h6 h7 hba
+
+theorem agentRemove_of_not_mem {s : ESpace} (h : EInv s) {a : Aid} (ha : a ∉ s.active) :
+    agentRemove s a = .error (if s.gone a then .attr else .key) := by
+  have hn := (h.not_mem_iff a).mp ha
+  cases hg : s.gone a <;> simp [agentRemove, removeAgent, hg, hn]
+
+theorem agentGet_of_mem {s : ESpace} (h : EInv s) {a : Aid} (ha : a ∈ s.active) : agentGet s a = getPos s a := by
+  obtain ⟨i, hi⟩ := (h.mem_iff a).mp ha
+  simp [agentGet, h.not_gone hi]
+
+theorem agentSet_of_mem {s : ESpace} (h : EInv s) {a : Aid} (ha : a ∈ s.active) (p : Pos) :
+    agentSet s a p = setPos s a p := by
+  obtain ⟨i, hi⟩ := (h.mem_iff a).mp ha
+  simp [agentSet, h.not_gone hi]
+
+theorem agentGet_of_not_mem {s : ESpace} (h : EInv s) {a : Aid} (ha : a ∉ s.active) :
+    agentGet s a = .error (if s.gone a then .attr else .key) := by
+  cases hg : s.gone a <;> simp [agentGet, hg, getPos_of_not_mem h ha]
+
+theorem agentSet_of_not_mem {s : ESpace} (h : EInv s) {a : Aid} (ha : a ∉ s.active) (p : Pos) :
+    ∃ e, agentSet s a p = .error e := by
+  cases hg : s.gone a
+  · rcases setPos_spec h a p with ⟨_, e, he⟩ | ⟨hm, _⟩ | ⟨_, _, hm, _⟩
+    · exact ⟨e, by simp [agentSet, hg, he]⟩
+    · exact absurd hm ha
+    · exact absurd hm ha
+  · exact ⟨.attr, by simp [agentSet, hg]⟩
+
+theorem agentIadd_of_not_mem {s : ESpace} (h : EInv s) {a : Aid} (ha : a ∉ s.active) (v : Pos) :
+    ∃ e, agentIadd s a v = .error e := by
+  rw [agentIadd, agentGet_of_not_mem h ha]; exact ⟨_, rfl⟩
+
+theorem agentIadd_of_idx {s : ESpace} (h : EInv s) {a : Aid} {i : Nat} (hi : s.a2i a = some i) (v : Pos) :
+    agentIadd s a v = setPos s a (vadd (s.buf i) v) := by
+  have ha : a ∈ s.active := (h.mem_iff a).mpr ⟨i, hi⟩
+  rw [agentIadd, agentGet_of_mem h ha, getPos_of_idx h hi]
+  exact agentSet_of_mem h ha _
+
+/-! ### histories: the model refines the property's own description -/
+
+/-- The property's own bookkeeping of a history of the experimental API: who is in the space (in order of
+    creation), the position last assigned to each agent (`none` until the first assignment), and which
+    agent objects have been removed. -/
+structure ESpec where
+  members : List Aid
+  pos : Aid → Option Pos
+  removed : Aid → Bool
+
+/-- One call.  `agent.position += v` is an assignment of (last assigned value) + v; for an agent that was never
+    assigned a position (its row is uninitialised memory) nothing is recorded. -/
+def especStep (c : ECfg) (st : ESpec) : EOp → ESpec
+  | .new a =>
+    if a ∈ st.members ∨ st.removed a = true then st
+    else { st with members := st.members ++ [a], pos := upd st.pos a none }
   | .set a p =>
-    if a ∈ st.1 then
+    if a ∈ st.members then
       match eassign c p with
-      | some p' => (st.1, upd st.2 a (some p'))
+      | some p' => { st with pos := upd st.pos a (some p') }
       | none => st
     else st
-  | .remove a => if a ∈ st.1 then (st.1.filter (fun k => k ≠ a), upd st.2 a none) else st
+  | .remove a =>
+    if a ∈ st.members then
+      { members := st.members.filter (fun k => k ≠ a), pos := upd st.pos a none, removed := upd st.removed a true }
+    else st
+  | .iadd a v =>
+    if a ∈ st.members then
+      match st.pos a with
+      | some q =>
+        match eassign c (vadd q v) with
+        | some p' => { st with pos := upd st.pos a (some p') }
+        | none => st
+      | none => st
+    else st
+  | .raw i p =>
+    -- a write through the `agent_positions` view: no validation, the value as it is becomes the position of the
+    -- i-th agent of the space
+    match st.members[i]? with
+    | some a => { st with pos := upd st.pos a (some p) }
+    | none => st
 
-def espec (c : ECfg) (ops : List EOp) : List Aid × (Aid → Option Pos) :=
-  ops.foldl (especStep c) ([], fun _ => none)
+def espec (c : ECfg) (ops : List EOp) : ESpec :=
+  ops.foldl (especStep c) ⟨[], fun _ => none, fun _ => false⟩
 
-structure ERef (c : ECfg) (s : ESpace) (st : List Aid × (Aid → Option Pos)) : Prop where
+structure ERef (c : ECfg) (s : ESpace) (st : ESpec) : Prop where
   inv : EInv s
   cfg : s.cfg = c
-  active : s.active = st.1
-  pos : ∀ a p, st.2 a = some p → getPos s a = .ok p
-  out : ∀ a, a ∉ st.1 → st.2 a = none
+  active : s.active = st.members
+  pos : ∀ a p, st.pos a = some p → getPos s a = .ok p
+  out : ∀ a, a ∉ st.members → st.pos a = none
+  gone : s.gone = st.removed
 
-theorem estep_refines {c : ECfg} {s : ESpace} {st : List Aid × (Aid → Option Pos)} (h : ERef c s st)
+/-- an assignment (by the setter or by `+=`) to a member -/
+theorem eref_assign {c : ECfg} {s : ESpace} {st : ESpec} (h : ERef c s st) {a : Aid} (ha : a ∈ st.members)
+    (p : Pos) :
+    ERef c (match setPos s a p with | .ok s' => s' | .error _ => s)
+      (match eassign c p with | some p' => { st with pos := upd st.pos a (some p') } | none => st) := by
+  obtain ⟨hi, hc, hact, hpos, hout, hgone⟩ := h
+  rcases setPos_spec hi a p with ⟨hn, e, he⟩ | ⟨_, hr, he⟩ | ⟨p', i, _, hr, hidx, he⟩
+  · rw [hact] at hn; exact absurd ha hn
+  · rw [hc] at hr
+    simp only [he, hr]
+    exact ⟨hi, hc, hact, hpos, hout, hgone⟩
+  · rw [hc] at hr
+    simp only [he, hr]
+    refine ⟨einv_set hi i p', hc, hact, ?_, ?_, hgone⟩
+    · intro b q hb
+      rw [getPos_set hi hidx]
+      by_cases hba : b = a
+      · simp [upd, hba] at hb; simp [hba, hb]
+      · simp only [upd, hba, if_false] at hb ⊢; exact hpos b q hb
+    · intro b hb
+      have hba : b ≠ a := by rintro rfl; exact hb ha
+      simp only [upd, hba, if_false]; exact hout b hb
+
+theorem estep_refines {c : ECfg} {s : ESpace} {st : ESpec} (h : ERef c s st)
     (op : EOp) : ERef c (estep s op) (especStep c st op) := by
-  obtain ⟨hi, hc, hact, hpos, hout⟩ := h
+  have h0 := h
+  obtain ⟨hi, hc, hact, hpos, hout, hgone⟩ := h
   cases op with
   | new a =>
     simp only [estep, especStep]
-    by_cases ha : a ∈ st.1
+    by_cases ha : a ∈ st.members
     · have : (s.a2i a).isSome = true := by
         rw [← hact, hi.mem_iff] at ha; obtain ⟨i, hi'⟩ := ha; simp [hi']
-      simp only [this, if_true, ha]
-      exact ⟨hi, hc, hact, hpos, hout⟩
+      simp only [this, Bool.true_or, if_true, ha, true_or]
+      exact h0
     · have hf : s.a2i a = none := by rw [← hact] at ha; exact (hi.not_mem_iff a).mp ha
-      simp only [hf, Option.isSome_none, Bool.false_eq_true, if_false, ha]
-      refine ⟨einv_add hi hf, hc, by simp [addAgent, hact], ?_, ?_⟩
-      · intro b p hb
-        by_cases hba : b = a
-        · simp [upd, hba] at hb
-        · simp only [upd, hba, if_false] at hb
-          have hbm : b ∈ s.active := by
-            rw [hact]; exact Classical.byContradiction fun hn => by rw [hout b hn] at hb; cases hb
-          rw [getPos_add hi hf hbm]; exact hpos b p hb
-      · intro b hb
-        have hba : b ≠ a := by rintro rfl; simp at hb
-        simp only [upd, hba, if_false]
-        exact hout b (by intro hm; exact hb (by simp [hm]))
+      by_cases hr : st.removed a = true
+      · have : s.gone a = true := by rw [hgone]; exact hr
+        simp only [this, Bool.or_true, if_true, hr, or_true]
+        exact h0
+      · have hg : s.gone a = false := by rw [hgone]; simpa using hr
+        simp only [hf, hg, Option.isSome_none, Bool.or_self, Bool.false_eq_true, if_false, ha, hr, or_self]
+        refine ⟨einv_add hi hf hg, hc, by simp [addAgent, hact], ?_, ?_, by simp [addAgent, hgone]⟩
+        · intro b p hb
+          by_cases hba : b = a
+          · simp [upd, hba] at hb
+          · simp only [upd, hba, if_false] at hb
+            have hbm : b ∈ s.active := by
+              rw [hact]; exact Classical.byContradiction fun hn => by rw [hout b hn] at hb; cases hb
+            rw [getPos_add hi hf hg hbm]; exact hpos b p hb
+        · intro b hb
+          have hba : b ≠ a := by rintro rfl; simp at hb
+          simp only [upd, hba, if_false]
+          exact hout b (by intro hm; exact hb (by simp [hm]))
   | set a p =>
     simp only [estep, especStep]
-    rcases setPos_spec hi a p with ⟨ha, e, he⟩ | ⟨ha, hr, he⟩ | ⟨p', i, ha, hr, hidx, he⟩
-    · rw [hact] at ha
+    by_cases ha : a ∈ st.members
+    · rw [agentSet_of_mem hi (hact ▸ ha), if_pos ha]
+      exact eref_assign h0 ha p
+    · obtain ⟨e, he⟩ := agentSet_of_not_mem hi (a := a) (by rw [hact]; exact ha) p
       simp only [he, ha, if_false]
-      exact ⟨hi, hc, hact, hpos, hout⟩
-    · rw [hact] at ha; rw [hc] at hr
-      simp only [he, ha, if_true, hr]
-      exact ⟨hi, hc, hact, hpos, hout⟩
-    · rw [hact] at ha; rw [hc] at hr
-      simp only [he, ha, if_true, hr]
-      refine ⟨einv_set hi i p', hc, hact, ?_, ?_⟩
-      · intro b q hb
-        rw [getPos_set hi hidx]
-        by_cases hba : b = a
-        · simp [upd, hba] at hb; simp [hba, hb]
-        · simp only [upd, hba, if_false] at hb ⊢; exact hpos b q hb
-      · intro b hb
-        have hba : b ≠ a := by rintro rfl; exact hb ha
-        simp only [upd, hba, if_false]; exact hout b hb
+      exact h0
   | remove a =>
     simp only [estep, especStep]
-    by_cases ha : a ∈ st.1
+    by_cases ha : a ∈ st.members
     · simp only [ha, if_true]
       obtain ⟨index, hidx⟩ := (hi.mem_iff a).mp (hact ▸ ha)
-      obtain ⟨s', h1, h2, h3, h4, h5, h6, h7⟩ := removeAgent_spec hi hidx
-      have hi' := einv_remove hi hidx h4 h3 h5 h7
+      obtain ⟨s', h1, hi', h2, _, _, h5, h6, _, h8⟩ := agentRemove_spec hi hidx
       simp only [h1]
-      refine ⟨hi', h2.trans hc, ?_, ?_, ?_⟩
+      refine ⟨hi', h2.trans hc, ?_, ?_, ?_, by rw [h6, hgone]⟩
       · rw [h5, ← hact]; exact nodup_eraseIdx_eq_filter _ _ _ hi.nodup ((hi.idx _ _).mp hidx)
       · intro b q hb
         by_cases hba : b = a
         · simp [upd, hba] at hb
         · simp only [upd, hba, if_false] at hb
-          rw [getPos_remove hi hi' hidx h6 h7 hba]; exact hpos b q hb
+          rw [h8 b hba]; exact hpos b q hb
       · intro b hb
         by_cases hba : b = a
         · simp [upd, hba]
         · simp only [upd, hba, if_false]
           apply hout b
           intro hm; exact hb (List.mem_filter.mpr ⟨hm, by simpa using hba⟩)
-    · have hn : s.a2i a = none := (hi.not_mem_iff a).mp (hact ▸ ha)
-      simp only [removeAgent, hn, ha, if_false]
-      exact ⟨hi, hc, hact, hpos, hout⟩
+    · rw [agentRemove_of_not_mem hi (by rw [hact]; exact ha)]
+      simp only [ha, if_false]
+      exact h0
+  | iadd a v =>
+    simp only [estep, especStep]
+    by_cases ha : a ∈ st.members
+    · obtain ⟨i, hidx⟩ := (hi.mem_iff a).mp (hact ▸ ha)
+      rw [agentIadd_of_idx hi hidx, if_pos ha]
+      cases hq : st.pos a with
+      | some q =>
+        have : s.buf i = q := by
+          have := hpos a q hq; rw [getPos_of_idx hi hidx] at this; simpa using this
+        rw [this]
+        exact eref_assign h0 ha (vadd q v)
+      | none =>
+        simp only
+        rcases setPos_spec hi a (vadd (s.buf i) v) with ⟨_, e, he⟩ | ⟨_, _, he⟩ | ⟨p', j, _, _, hj, he⟩
+        · simp only [he]; exact h0
+        · simp only [he]; exact h0
+        · simp only [he]
+          refine ⟨einv_set hi j p', hc, hact, ?_, hout, hgone⟩
+          intro b q hb
+          have hba : b ≠ a := by rintro rfl; rw [hq] at hb; cases hb
+          rw [getPos_set hi hj]; simp only [hba, if_false]; exact hpos b q hb
+    · obtain ⟨e, he⟩ := agentIadd_of_not_mem hi (a := a) (by rw [hact]; exact ha) v
+      simp only [he, ha, if_false]
+      exact h0
+  | raw i p =>
+    simp only [estep, especStep, rawWrite]
+    cases hm : st.members[i]? with
+    | none =>
+      have : ¬ i < s.view := by
+        rw [hi.view, hi.len, hact]; exact Nat.not_lt.mpr (List.getElem?_eq_none_iff.mp hm)
+      simp only [this, if_false]
+      exact h0
+    | some a =>
+      have hidx : s.a2i a = some i := (hi.idx a i).mpr (by rw [hact]; exact hm)
+      have hlt : i < s.view := by rw [hi.view]; exact hi.lt hidx
+      simp only [hlt, if_true]
+      refine ⟨einv_set hi i p, hc, hact, ?_, ?_, hgone⟩
+      · intro b q hb
+        rw [getPos_set hi hidx]
+        by_cases hba : b = a
+        · simp [upd, hba] at hb; simp [hba, hb]
+        · simp only [upd, hba, if_false] at hb ⊢; exact hpos b q hb
+      · intro b hb
+        have hba : b ≠ a := by rintro rfl; exact hb (List.mem_of_getElem? hm)
+        simp only [upd, hba, if_false]; exact hout b hb
 
-theorem efold_refines {c : ECfg} (ops : List EOp) {s : ESpace} {st : List Aid × (Aid → Option Pos)}
+theorem efold_refines {c : ECfg} (ops : List EOp) {s : ESpace} {st : ESpec}
     (h : ERef c s st) : ERef c (ops.foldl estep s) (ops.foldl (especStep c) st) := by
   induction ops generalizing s st with
   | nil => exact h
   | cons op ops ih => exact ih (estep_refines h op)
 
 theorem erun_refines (c : ECfg) (cap : Nat) (ops : List EOp) : ERef c (erun c cap ops) (espec c ops) :=
-  efold_refines ops ⟨einv_init c cap, rfl, rfl, by simp, by simp⟩
+  efold_refines ops ⟨einv_init c cap, rfl, rfl, by simp, by simp, rfl⟩
 
 /-! ### queries -/
 
@@ -694,36 +865,70 @@ theorem eassign_inBounds (c : ECfg) (hw : c.WF) {p p' : Pos} (h : eassign c p = 
 
 /-! ### frame, agent-centred queries, agent subsets -/
 
-/-- the agent a call is about -/
-def EOp.target : EOp → Aid
-  | .new a => a
-  | .set a _ => a
-  | .remove a => a
+/-- the agent a call is about (for a write through the view: the agent whose row it is, if any) -/
+def EOp.target (s : ESpace) : EOp → Option Aid
+  | .new a => some a
+  | .set a _ => some a
+  | .remove a => some a
+  | .iadd a _ => some a
+  | .raw i _ => s.active[i]?
+
+theorem getPos_assign_frame {s : ESpace} (h : EInv s) (b : Aid) (p : Pos) {a : Aid} (hba : a ≠ b) :
+    getPos (match setPos s b p with | .ok s' => s' | .error _ => s) a = getPos s a := by
+  rcases setPos_spec h b p with ⟨_, e, he⟩ | ⟨_, _, he⟩ | ⟨p', i, _, _, hidx, he⟩
+  · simp [he]
+  · simp [he]
+  · simp only [he]; rw [getPos_set h hidx]; simp [hba]
 
 theorem getPos_estep_frame {s : ESpace} (h : EInv s) (op : EOp) {a : Aid} (ha : a ∈ s.active)
-    (hne : op.target ≠ a) : getPos (estep s op) a = getPos s a := by
+    (hne : op.target s ≠ some a) : getPos (estep s op) a = getPos s a := by
   cases op with
   | new b =>
     simp only [estep]
     cases hb : s.a2i b with
     | some i => simp
-    | none => simp only [Option.isSome_none, Bool.false_eq_true, if_false]; exact getPos_add h hb ha
+    | none =>
+      cases hg : s.gone b with
+      | true => simp
+      | false =>
+        simp only [Option.isSome_none, Bool.or_self, Bool.false_eq_true, if_false]
+        exact getPos_add h hb hg ha
   | set b p =>
     have hba : a ≠ b := fun e => hne (by simp [EOp.target, e])
-    simp only [estep]
-    rcases setPos_spec h b p with ⟨_, e, he⟩ | ⟨_, _, he⟩ | ⟨p', i, _, _, hidx, he⟩
-    · simp [he]
-    · simp [he]
-    · simp only [he]; rw [getPos_set h hidx]; simp [hba]
+    simp only [estep, agentSet]
+    cases hg : s.gone b with
+    | true => simp
+    | false => simp only [Bool.false_eq_true, if_false]; exact getPos_assign_frame h b p hba
   | remove b =>
     have hba : a ≠ b := fun e => hne (by simp [EOp.target, e])
     simp only [estep]
     cases hb : s.a2i b with
-    | none => simp [removeAgent, hb]
+    | none =>
+      rw [agentRemove_of_not_mem h ((h.not_mem_iff b).mpr hb)]
     | some index =>
-      obtain ⟨s', h1, _, h3, h4, h5, h6, h7⟩ := removeAgent_spec h hb
+      obtain ⟨s', h1, _, _, _, _, _, _, _, h8⟩ := agentRemove_spec h hb
       simp only [h1]
-      exact getPos_remove h (einv_remove h hb h4 h3 h5 h7) hb h6 h7 hba
+      exact h8 a hba
+  | iadd b v =>
+    have hba : a ≠ b := fun e => hne (by simp [EOp.target, e])
+    simp only [estep]
+    cases hb : s.a2i b with
+    | none =>
+      obtain ⟨e, he⟩ := agentIadd_of_not_mem h ((h.not_mem_iff b).mpr hb) v
+      simp [he]
+    | some i =>
+      rw [agentIadd_of_idx h hb]
+      exact getPos_assign_frame h b _ hba
+  | raw i p =>
+    simp only [estep, rawWrite]
+    by_cases hlt : i < s.view
+    · simp only [hlt, if_true]
+      have hl : i < s.active.length := by rw [← h.len, ← h.view]; exact hlt
+      have hb : s.active[i]? = some s.active[i] := List.getElem?_eq_getElem hl
+      have hidx : s.a2i s.active[i] = some i := (h.idx _ i).mpr hb
+      have hba : a ≠ s.active[i] := fun e => hne (by simp [EOp.target, e])
+      rw [getPos_set h hidx]; simp [hba]
+    · simp [hlt]
 
 theorem length_filter_ne_of_nodup (l : List (Aid × Int)) (a : Aid) (hn : (l.map (·.1)).Nodup)
     (ha : a ∈ l.map (·.1)) : (l.filter (fun ad => ad.1 ≠ a)).length + 1 = l.length := by
@@ -789,5 +994,89 @@ theorem rowsOf_spec {s : ESpace} (h : EInv s) (sub : List Aid) (hsub : ∀ a ∈
   · intro aq haq
     obtain ⟨ai, hai, rfl⟩ := List.mem_map.mp haq
     exact getPos_of_idx h (hok ai hai)
+
+/-! ### the capacity along a history, and references to `agent_positions` kept by the user -/
+
+theorem setPos_cap {s s' : ESpace} {a : Aid} {p : Pos} (h : setPos s a p = .ok s') : s'.cap = s.cap := by
+  simp only [setPos] at h
+  repeat' split at h
+  all_goals first | (cases h; rfl) | cases h
+
+theorem removeAgent_cap {s s' : ESpace} {a : Aid} (h : removeAgent s a = .ok s') : s'.cap = s.cap := by
+  simp only [removeAgent] at h
+  repeat' split at h
+  all_goals first | (cases h; rfl) | cases h
+
+/-- one call: the capacity stays, or it grows — only in `_add_agent`, only when the array is full -/
+theorem estep_cap (s : ESpace) (op : EOp) :
+    (estep s op).cap = s.cap ∨ (s.cap < (estep s op).cap ∧ (∃ a, op = .new a) ∧ s.cap ≤ s.n) := by
+  cases op with
+  | new a =>
+    simp only [estep]
+    split
+    · exact Or.inl rfl
+    · simp only [addAgent]
+      by_cases hc : s.cap ≤ s.n
+      · right; rw [if_pos hc]; exact ⟨by have := growBy_pos (s.n + 1); omega, ⟨a, rfl⟩, hc⟩
+      · left; simp [hc]
+  | set a p =>
+    left; simp only [estep]
+    cases h : agentSet s a p with
+    | error e => rfl
+    | ok s' =>
+      simp only [agentSet] at h
+      split at h
+      · cases h
+      · exact setPos_cap h
+  | remove a =>
+    left; simp only [estep, agentRemove]
+    by_cases hg : s.gone a = true
+    · simp [hg]
+    · simp only [hg, Bool.false_eq_true, if_false]
+      cases hr : removeAgent s a with
+      | error e => rfl
+      | ok s'' => show s''.cap = s.cap; exact removeAgent_cap hr
+  | iadd a v =>
+    left; simp only [estep]
+    cases h : agentIadd s a v with
+    | error e => rfl
+    | ok s' =>
+      simp only [agentIadd] at h
+      split at h
+      · cases h
+      · simp only [agentSet] at h
+        split at h
+        · cases h
+        · exact setPos_cap h
+  | raw i p =>
+    left; simp only [estep, rawWrite]
+    by_cases hlt : i < s.view <;> simp [hlt]
+
+theorem efold_cap_mono (ops : List EOp) (s : ESpace) : s.cap ≤ (ops.foldl estep s).cap := by
+  induction ops generalizing s with
+  | nil => exact Nat.le_refl _
+  | cons op ops ih =>
+    have h1 : s.cap ≤ (estep s op).cap := by rcases estep_cap s op with h | h <;> omega
+    exact Nat.le_trans h1 (ih _)
+
+theorem hfold_sp (ops : List EOp) (h : HSpace) : (ops.foldl hstep h).sp = ops.foldl estep h.sp := by
+  induction ops generalizing h with
+  | nil => rfl
+  | cons op ops ih => simp only [List.foldl_cons]; rw [ih]; rfl
+
+/-- an array the space has dropped is never touched by the space again -/
+theorem hfold_orph_frozen (ops : List EOp) (h : HSpace) (k : Nat) (hk : k < h.sp.cap) :
+    (ops.foldl hstep h).orph k = h.orph k := by
+  induction ops generalizing h with
+  | nil => rfl
+  | cons op ops ih =>
+    simp only [List.foldl_cons]
+    have hm : h.sp.cap ≤ (estep h.sp op).cap := efold_cap_mono [op] h.sp
+    rw [ih (hstep h op) (by show k < (estep h.sp op).cap; omega)]
+    simp only [hstep, HSpace.advance]
+    split
+    · rfl
+    · have : k ≠ h.sp.cap := by omega
+      simp [upd, this]
 
 end Mesa.Cont
